@@ -82,11 +82,15 @@ namespace rkcommon {
           if (!l->threadShouldBeAlive)
             return;
 
+          // Publish insideLoopBody *before* reading shouldBeRunning: stop()
+          // clears the flag and then waits for insideLoopBody to be false, so
+          // the body must never be entered on a stale read of the flag.
+          l->insideLoopBody = true;
           if (l->shouldBeRunning) {
-            l->insideLoopBody = true;
             fcn();
             l->insideLoopBody = false;
           } else {
+            l->insideLoopBody = false;
             std::unique_lock<std::mutex> lock(l->runningMutex);
             l->runningCond.wait(lock, [&] {
               return l->shouldBeRunning.load() ||
